@@ -25,11 +25,18 @@ for e in sorted(kf, key=lambda e: (e["property"], e["id"])):
 nfix = sum(1 for e in kf if e.get("status") == "fixed"); nopen = len(kf) - nfix
 block("FINDINGS", f"{nfix} repaired by `fix:` commits, {nopen} open (recorded, reported as KNOWN-FINDING).\n\n" + "\n".join(rows))
 
-rows = ["| Seeded change | Prop | What it needs to manifest | Detected by | Result |", "|---|---|---|---|---|"]
+def res(e):
+    r = e.get("result", "")
+    if r.startswith("caught") and any(h.get("result") == "MISSED" for h in e.get("history", [])):
+        r = r.replace("caught", "missed at first, caught after strengthening", 1)
+    return r
+
+
+rows = ["| Seeded change | Prop | What it needs to manifest | Detected by | Result | Strengthening it prompted |", "|---|---|---|---|---|---|"]
 for m in sorted((R / "seeded").glob("*/meta.json")):
     e = json.loads(m.read_text())
     rows.append(f"| {m.parent.name} | {e.get('property')} | {str(e.get('needs_to_manifest',''))[:260].replace('|','/')} | "
-                f"{e.get('detected_by','')} | {e.get('result','')} |")
+                f"{e.get('detected_by','')} | {res(e)} | {str(e.get('strengthening','')).replace('|','/')} |")
 block("SEEDED", "\n".join(rows))
 (R / "DESIGN.md").write_text(d)
 print("DESIGN.md tables regenerated:", nfix, "fixed,", nopen, "open")
